@@ -39,7 +39,13 @@ def renderLines (d : ℕ) (ls : List Line) : String := "\n".intercalate (ls.map 
 
 /-! lexer -/
 
-def isWs (c : Char) : Bool := c == ' ' || c == '\t' || c == '\r' || c == '\x0b' || c == '\x0c'
+/-- white space inside a line: the characters of `str.isspace` (what `str.split()` / `str.strip()` cut at) except the
+    new line, which separates the lines -/
+def isWs (c : Char) : Bool :=
+  c == ' ' || c == '\t' || c == '\r' || c == '\x0b' || c == '\x0c' ||
+  (0x1c ≤ c.toNat && c.toNat ≤ 0x1f) || c.toNat == 0x85 || c.toNat == 0xa0 || c.toNat == 0x1680 ||
+  (0x2000 ≤ c.toNat && c.toNat ≤ 0x200a) || c.toNat == 0x2028 || c.toNat == 0x2029 || c.toNat == 0x202f ||
+  c.toNat == 0x205f || c.toNat == 0x3000
 
 def trimChars (cs : List Char) : List Char := ((cs.dropWhile isWs).reverse.dropWhile isWs).reverse
 
@@ -57,13 +63,25 @@ def splitFirst (cs : List Char) : String × List Char :=
   let (a, r) := cs.span (fun c => !isWs c)
   (String.ofList a, trimChars r)
 
+/-- `float(text)` / `int(text)` accept single underscores between two digits (`1_000`); anywhere else an underscore
+    makes the text not a number -/
+def dropUnderscores : List Char → Option (List Char)
+  | [] => some []
+  | [c] => if c == '_' then none else some [c]
+  | a :: '_' :: b :: r =>
+    if a.isDigit && b.isDigit then (dropUnderscores (b :: r)).map (a :: ·) else none
+  | a :: b :: r => if a == '_' then none else (dropUnderscores (b :: r)).map (a :: ·)
+
+def parseNum (s : String) : Option Num := (dropUnderscores s.toList).bind (fun cs => Dec.parse (String.ofList cs))
+
 def parseInt (s : String) : Option Int :=
-  match s.toList with
+  (dropUnderscores s.toList).bind fun cs =>
+  match cs with
   | '-' :: r => (digitsVal r).bind (fun n => if r.isEmpty then none else some (-(n : Int)))
   | '+' :: r => (digitsVal r).bind (fun n => if r.isEmpty then none else some (n : Int))
   | r => (digitsVal r).bind (fun n => if r.isEmpty then none else some (n : Int))
 
-def numTokOf (s : String) : Tok := match Dec.parse s with
+def numTokOf (s : String) : Tok := match parseNum s with
   | some x => .n x
   | none => .w s
 
